@@ -31,11 +31,30 @@ func (g *Gen) smt(o *Obl) string {
 	}
 	mark(o.Pc)
 	mark(o.Goal)
+	var constFacts []string
 	for len(work) > 0 {
 		n := work[len(work)-1]
 		work = work[:len(work)-1]
 		if i, ok := defBody[n]; ok {
 			mark(g.defs[i].Body)
+		}
+	}
+	if need["|strlen|"] || need["|strbyte|"] {
+		var ids []string
+		for id := range g.constFacts {
+			ids = append(ids, id)
+		}
+		sort.Strings(ids)
+		for _, id := range ids {
+			constFacts = append(constFacts, g.constFacts[id])
+			mark(g.constFacts[id])
+		}
+		for len(work) > 0 {
+			n := work[len(work)-1]
+			work = work[:len(work)-1]
+			if i, ok := defBody[n]; ok {
+				mark(g.defs[i].Body)
+			}
 		}
 	}
 	var sb strings.Builder
@@ -69,6 +88,9 @@ func (g *Gen) smt(o *Obl) string {
 	sort.Strings(axs)
 	for _, sym := range axs {
 		fmt.Fprintf(&sb, "(assert %s)\n", g.axioms[sym])
+	}
+	for _, f := range constFacts {
+		fmt.Fprintf(&sb, "(assert %s)\n", f)
 	}
 	fmt.Fprintf(&sb, "(assert %s)\n", o.Pc)
 	if !o.Cover {
